@@ -14,6 +14,7 @@ def run(ctx):
         {"scens": h3, "policies": ("FIFO",), "bound": 0},
         {"scens": h2, "policies": ("FIFO", "LIFO"), "bound": 1, "cap": 3000},
         {"scens": h2[:: (7 if q else 1)], "policies": ("JOBS",), "bound": 1, "cap": 4000},
+        {"scens": wcat.index_mode_scenarios(), "policies": ("FIFO",), "bound": 0},
         {"scens": wcat.index_twoproc_scenarios(), "policies": ("FIFO", "LIFO"), "bound": 1 if q else 2, "demote": True, "cap": 30000},
         {"scens": wcat.index_kill_scenarios(), "policies": ("FIFO",), "kills": {"restart_bound": 0}},
         {"scens": wcat.index_blocked_scenarios(), "policies": ("FIFO",), "kills": {"restart_bound": 0}},
